@@ -284,6 +284,12 @@ Definition handle_volumes (pinned : bool) (u : unit) (unit_path : str) (sec : st
   do vols <- lk_all u sec (L "Volume");
   volumes_loop pinned unit_path vols svc tbl args.
 
+(* %N of the pod's service: its service FILE name without ".service" (repaired; the pinned code used the service name,
+   which differs when ServiceName contains a '/') *)
+Definition strip_service (n : str) : str :=
+  if ends_with (L ".service") n then firstn (length n - 8) n else n.
+Definition pod_unit_name (i : info) : str := strip_service (service_file_name i).
+
 Definition handle_pod (u : unit) (sec : str) (svc : unit) (svc_path : str) (tbl : table) (args : list str)
   : bres (list str * unit * table) :=
   do pod <- lk u sec (L "Pod");
@@ -297,7 +303,7 @@ Definition handle_pod (u : unit) (sec : str) (svc : unit) (svc_path : str) (tbl 
           let psn := service_file_name i in
           let svc' := unit_add (unit_add svc SEC_U (L "BindsTo") psn) SEC_U (L "After") psn in
           let start := match lookup_bool u sec (L "StartWithPod") with Some b => b | None => true end in
-          COk (args ++ [L "--pod-id-file"; L "%t/" ++ i_service_name i ++ L ".pod-id"], svc',
+          COk (args ++ [L "--pod-id-file"; L "%t/" ++ pod_unit_name i ++ L ".pod-id"], svc',
                if start then tbl_set tbl pod (with_container i svc_path) else tbl)
       end
   | _ => COk (args, svc, tbl)
@@ -576,11 +582,18 @@ Definition from_container (u : unit) (path : str) (tbl : table) : cres (unit * s
   end).
 
 (* ---------- .image ---------- *)
-Definition from_image (u : unit) (path : str) (tbl : table) : cres (unit * str * table) :=
+(* the podman object an .image unit provides: ImageTag if set, else the Image value *)
+Definition image_resource (u : unit) : bres str :=
+  do img <- lk u c_IMAGE_SECTION (L "Image");
+  match img with
+  | Some (c :: s) =>
+      do tag <- lk u c_IMAGE_SECTION (L "ImageTag");
+      COk (match tag with Some (d :: t) => d :: t | _ => c :: s end)
+  | _ => err EInvalidImageOrRootfs
+  end.
+
+Definition image_body (u : unit) (svc : unit) : bres unit :=
   let sec := c_IMAGE_SECTION in
-  do pr <- prologue u path tbl TImage a_SUPPORTED_IMAGE_KEYS;
-  let '(inf, svc) := pr in
-  lift (
   do img <- lk u sec (L "Image");
   match img with
   | Some (c :: s) =>
@@ -593,15 +606,20 @@ Definition from_image (u : unit) (path : str) (tbl : table) : cres (unit * str *
       let args := add_bools u sec pt_from_image_unit_bool_keys args in
       let args := handle_podman_args u sec args ++ [image_name] in
       do svc <- add_raw_exec svc (L "ExecStart") args;
-      do svc <- one_shot_section svc true;
-      do tag <- lk u sec (L "ImageTag");
-      let rname := match tag with Some (d :: t) => d :: t | _ => image_name end in
-      match file_name path with
-      | Some fname => COk (svc, service_file_name inf, tbl_set tbl fname (with_resource inf rname))
-      | None => CPanic
-      end
+      one_shot_section svc true
   | _ => err EInvalidImageOrRootfs
-  end).
+  end.
+
+Definition from_image (u : unit) (path : str) (tbl : table) : cres (unit * str * table) :=
+  do pr <- prologue u path tbl TImage a_SUPPORTED_IMAGE_KEYS;
+  let '(inf, svc) := pr in
+  lift (
+    do svc <- image_body u svc;
+    do rname <- image_resource u;
+    match file_name path with
+    | Some fname => COk (svc, service_file_name inf, tbl_set tbl fname (with_resource inf rname))
+    | None => CPanic
+    end).
 
 (* ---------- .network ---------- *)
 Fixpoint subnets_loop (subnets gateways ranges : list str) (args : list str) : list str :=
@@ -614,14 +632,14 @@ Fixpoint subnets_loop (subnets gateways ranges : list str) (args : list str) : l
       subnets_loop r g' r' a
   end.
 
-Definition from_network (u : unit) (path : str) (tbl : table) : cres (unit * str * table) :=
+(* the podman object a .network unit provides *)
+Definition network_name (u : unit) (path : str) : bres str :=
+  do nn <- lk u c_NETWORK_SECTION (L "NetworkName");
+  match nn with Some (c :: s) => COk (c :: s) | _ => default_resource_name path end.
+
+Definition network_body (u : unit) (name : str) (svc : unit) : bres unit :=
   let sec := c_NETWORK_SECTION in
-  do pr <- prologue u path tbl TNetwork a_SUPPORTED_NETWORK_KEYS;
-  let '(inf, svc) := pr in
-  lift (
   let svc := rename_own svc TNetwork in
-  do nn <- lk u sec (L "NetworkName");
-  do name <- (match nn with Some (c :: s) => COk (c :: s) | _ => default_resource_name path end);
   let svc := unit_add svc SEC_U (L "RequiresMountsFor") (L "%t/containers") in
   do base <- base_command u sec;
   let args := base ++ [L "network"; L "create"; L "--ignore"] in
@@ -641,26 +659,27 @@ Definition from_network (u : unit) (path : str) (tbl : table) : cres (unit * str
   let args := add_keys args (L "--label") (lookup_all_key_val u sec (L "Label")) in
   let args := handle_podman_args u sec args ++ [name] in
   do svc <- add_raw_exec svc (L "ExecStart") args;
-  do svc <- one_shot_section svc true;
-  match file_name path with
-  | Some fname => COk (svc, service_file_name inf, tbl_set tbl fname (with_resource inf name))
-  | None => CPanic
-  end).
+  one_shot_section svc true.
 
-(* ---------- .volume ---------- *)
-Definition from_volume (u : unit) (path : str) (tbl : table) : cres (unit * str * table) :=
-  let sec := c_VOLUME_SECTION in
-  do pr <- prologue u path tbl TVolume a_SUPPORTED_VOLUME_KEYS;
+Definition from_network (u : unit) (path : str) (tbl : table) : cres (unit * str * table) :=
+  do pr <- prologue u path tbl TNetwork a_SUPPORTED_NETWORK_KEYS;
   let '(inf, svc) := pr in
   lift (
-  let svc := rename_own svc TVolume in
-  do vn <- lk u sec (L "VolumeName");
-  do name <- (match vn with Some (c :: s) => COk (c :: s) | _ => default_resource_name path end);
-  match file_name path with
-  | None => CPanic
-  | Some fname =>
-  let tbl := tbl_set tbl fname (with_resource inf name) in
-  with_tbl tbl (
+    do name <- network_name u path;
+    do svc <- network_body u name svc;
+    match file_name path with
+    | Some fname => COk (svc, service_file_name inf, tbl_set tbl fname (with_resource inf name))
+    | None => CPanic
+    end).
+
+(* ---------- .volume ---------- *)
+(* the podman object a .volume unit provides *)
+Definition volume_name (u : unit) (path : str) : bres str :=
+  do vn <- lk u c_VOLUME_SECTION (L "VolumeName");
+  match vn with Some (c :: s) => COk (c :: s) | _ => default_resource_name path end.
+
+Definition volume_body (u : unit) (name : str) (svc : unit) (tbl : table) : bres unit :=
+  let sec := c_VOLUME_SECTION in
   let svc := unit_add svc SEC_U (L "RequiresMountsFor") (L "%t/containers") in
   let labels := lookup_all_key_val u sec (L "Label") in
   do base <- base_command u sec;
@@ -702,9 +721,21 @@ Definition from_volume (u : unit) (path : str) (tbl : table) : cres (unit * str 
   let args := add_keys args (L "--label") labels in
   let args := handle_podman_args u sec args ++ [name] in
   do svc <- add_raw_exec svc (L "ExecStart") args;
-  do svc <- one_shot_section svc true;
-  COk (svc, service_file_name inf, tbl))
-  end).
+  one_shot_section svc true.
+
+Definition from_volume (u : unit) (path : str) (tbl : table) : cres (unit * str * table) :=
+  do pr <- prologue u path tbl TVolume a_SUPPORTED_VOLUME_KEYS;
+  let '(inf, svc) := pr in
+  lift (
+    let svc := rename_own svc TVolume in
+    do name <- volume_name u path;
+    match file_name path with
+    | None => CPanic
+    | Some fname =>
+        (* the resource name is stored before the rest of the conversion can fail *)
+        let tbl' := tbl_set tbl fname (with_resource inf name) in
+        with_tbl tbl' (do svc <- volume_body u name svc tbl'; COk (svc, service_file_name inf, tbl'))
+    end).
 
 (* ---------- .kube ---------- *)
 Definition from_kube (u : unit) (path : str) (tbl : table) : cres (unit * str * table) :=
